@@ -54,9 +54,6 @@ theorem exactly_one_place {s : State} (h : Reachable s) (t : TaskId)
       rw [hfw] at this
       exact hg (Option.some.inj this).symm
 
-theorem readyFind_iff_H {s : State} {t : TaskId} : readyFind s t = true ↔ 0 < H s t := by
-  simp [readyFind, H, List.countP_pos_iff]
-
 /-- `isRunnable_iff_inReady`: for a task that is not done and not running, `task_is_runnable`
     (and the negation of `task_is_blocked`) agree with real membership of the ready queue,
     as computed by `ready_find`. -/
@@ -78,24 +75,6 @@ theorem isRunnable_iff_inReady {s : State} (h : Reachable s) (t : TaskId)
       | false => rfl
       | true => have := readyFind_iff_H.mp h'; omega
     simp [isRunnable, hb, hr]
-
-theorem mem_readyTasks {s : State} {t : TaskId} : t ∈ readyTasks s ↔ 0 < H s t := by
-  simp only [readyTasks, List.mem_filterMap, H, List.countP_pos_iff, isOf]
-  constructor
-  · rintro ⟨a, ha, hf⟩; exact ⟨a, ha, by simp [hf]⟩
-  · rintro ⟨a, ha, hf⟩; exact ⟨a, ha, by simpa using hf⟩
-
-theorem mem_allTasks {s : State} (hi : Inv s) {t : TaskId} :
-    t ∈ allTasks s ↔ (s.tasks t).done = false := by
-  simp only [allTasks, List.mem_filter, List.mem_range]
-  constructor
-  · rintro ⟨_, h⟩; simpa using h
-  · intro h
-    refine ⟨?_, by simp [h]⟩
-    apply Nat.lt_of_not_le
-    intro hle
-    have := hi.fresh t hle
-    rw [h] at this; cases this
 
 /-- `api_total` + `partition`: in every reachable state and in each of the three calling contexts
     (inside a task, inside a plain callback / between handles, outside the stopped loop with the
